@@ -238,6 +238,11 @@ func (e *Enc) encodeCall1(c *ssa.CallCommon, instr ssa.Instruction, pos token.Po
 			e.oblige("callers", name, pos, False, e.p.Contracts.CallersProps[name], "only "+strings.Join(allowed, ", ")+" may call "+name)
 		}
 	}
+	if kind == "func" && fn != nil && fn.Signature.Recv() != nil && len(c.Args) > 0 && !c.IsInvoke() {
+		if _, isPtr := fn.Signature.Recv().Type().Underlying().(*types.Pointer); isPtr {
+			e.nilDerefObligation(c.Args[0], e.coerce(args[0]), pos, "receiver of "+name)
+		}
+	}
 	if kind == "iface" && fileEffect[name] {
 		e.effectObligation(name, pos)
 	}
@@ -416,9 +421,19 @@ func (e *Enc) applyCall(name, kind string, fn *ssa.Function, fc *FuncContract, c
 	if fc != nil && fc.HasAssigns {
 		mod = KeySet{}
 		for _, a := range fc.Assigns {
-			// param.field : only that object's field
-			if parts := strings.SplitN(strings.TrimSpace(a), ".", 2); len(parts) == 2 {
-				if pv, ok := env.vars[parts[0]]; ok && pv.Typ != nil {
+			// param.field (or a longer path x.y.field): only that object's field
+			if li := strings.LastIndex(strings.TrimSpace(a), "."); li > 0 {
+				at := strings.TrimSpace(a)
+				parts := []string{at[:li], at[li+1:]}
+				pv, ok := env.vars[parts[0]]
+				if !ok && strings.Contains(parts[0], ".") {
+					if px, perr := ParseExpr(parts[0]); perr == nil {
+						if tv, everr := env.Eval(px); everr == nil && tv.Typ != nil {
+							pv, ok = tv, true
+						}
+					}
+				}
+				if ok && pv.Typ != nil {
 					if pt, ok := pv.Typ.Underlying().(*types.Pointer); ok {
 						if st, ok := pt.Elem().Underlying().(*types.Struct); ok {
 							found := false
@@ -511,6 +526,7 @@ func (e *Enc) applyCall(name, kind string, fn *ssa.Function, fc *FuncContract, c
 			}
 			e.assume(t.T)
 		}
+		_ = 0
 		for _, gu := range fc.GhostUpd {
 			t, err := post.inState(pre).Eval(gu.Expr)
 			if err != nil {
@@ -518,6 +534,49 @@ func (e *Enc) applyCall(name, kind string, fn *ssa.Function, fc *FuncContract, c
 				continue
 			}
 			e.heapSet(e.cur, "gh|"+gu.Name, t.T)
+		}
+	}
+	// a package function that is checked against the protocol of a function type or interface method it is a
+	// value of (refines/...) keeps that protocol's promises when it is called directly as well
+	if kind == "func" && fn != nil && !c.IsInvoke() {
+		for _, rf := range e.p.refinementsOf(fn) {
+			renv := &Env{e: e, vars: map[string]TV{}, state: e.cur, old: pre, now0: nowAtCall, opaqueLast: map[string]Term{}}
+			for i, pn := range rf.fc.Params {
+				if i < len(args) {
+					renv.vars[pn] = TV{T: e.coerce(args[i]), Typ: argTypes[i]}
+				}
+			}
+			for i, r := range results {
+				if i < len(rf.fc.Results) {
+					renv.vars[rf.fc.Results[i]] = TV{T: r.T, Typ: r.Typ}
+				}
+				renv.vars[fmt.Sprintf("r%d", i)] = TV{T: r.T, Typ: r.Typ}
+			}
+			penv := &Env{e: e, vars: renv.vars, state: pre, old: pre, now0: nowAtCall}
+			for i, cl := range rf.fc.Req {
+				if strings.HasPrefix(cl.Label, "assume-") {
+					continue
+				}
+				t, err := penv.Eval(cl.Expr)
+				if err != nil {
+					continue
+				}
+				label := cl.Label
+				if label == "" {
+					label = "r" + itoa(i)
+				}
+				e.oblige("pre", name+"/"+rf.name+"/"+label, pos, t.T, cl.Props, "requires (protocol of "+rf.name+") "+cl.Src)
+			}
+			for _, cl := range rf.fc.Ens {
+				if strings.HasPrefix(cl.Label, "assume-") || strings.HasPrefix(cl.Label, "body-") {
+					continue
+				}
+				t, err := renv.Eval(cl.Expr)
+				if err != nil {
+					continue
+				}
+				e.assume(t.T)
+			}
 		}
 	}
 	e.reassumeInvariants()
@@ -1298,6 +1357,13 @@ func (e *Enc) loopHeader(b *ssa.BasicBlock, li *loopInfo, preds []*ssa.BasicBloc
 		}
 		sort.Strings(ks)
 		for _, k := range ks {
+			if strings.HasPrefix(k, "lastta|") || strings.HasPrefix(k, "lasttaf|") {
+				// assertions made in earlier iterations are not this iteration's (only if the body makes such assertions)
+				if e.loopAsserts(li, strings.Split(k, "|")[1]) {
+					e.cur.heap[k] = e.fresh("lastta_loop", e.heapGet(e.cur, k).Sort)
+				}
+				continue
+			}
 			parts := strings.Split(k, "|")
 			if len(parts) < 2 || !called[parts[1]] {
 				continue
@@ -1377,6 +1443,18 @@ func (e *Enc) loopHeader(b *ssa.BasicBlock, li *loopInfo, preds []*ssa.BasicBloc
 	}
 }
 
+// loopAsserts: does the loop body contain a type assertion to the (pointer) type with this name?
+func (e *Enc) loopAsserts(li *loopInfo, typ string) bool {
+	for b := range li.blocks {
+		for _, in := range b.Instrs {
+			if ta, ok := in.(*ssa.TypeAssert); ok && e.p.relTypeString(ta.AssertedType) == typ {
+				return true
+			}
+		}
+	}
+	return false
+}
+
 func (e *Enc) loopInvariants(li *loopInfo) []Clause {
 	if e.fc == nil {
 		return nil
@@ -1438,6 +1516,12 @@ func (e *Enc) backEdges(b *ssa.BasicBlock) {
 			// old(...) the state at the start of the iteration.
 			ienv := e.loopEnv(li, e.cur, nil)
 			ienv.old = li.headerState
+			// next_<name>: the value the loop variable takes into the next iteration
+			for phiV, v := range bind {
+				if phi, ok := phiV.(*ssa.Phi); ok && phi.Comment != "" {
+					ienv.vars["next_"+phi.Comment] = TV{T: v.T, Typ: phi.Type()}
+				}
+			}
 			for _, cl := range e.fc.IterEnd[li.index] {
 				t, err := ienv.Eval(cl.Expr)
 				label := cl.Label
